@@ -43,29 +43,36 @@ def node_value(node, bg):
     raise ValueError(node.kind)
 
 
-def size_vectors(rlevel, group_sizes, data_lens):
-    """all 'shape' trees of a level: {"g": {name: [shape,...]}, "d": {name: len}}"""
+def _at(spec, depth):
+    """spec is either a tuple of ints (uniform) or a list of tuples per depth (last one repeats)"""
+    if spec and isinstance(spec[0], int):
+        return spec
+    return spec[min(depth, len(spec) - 1)]
+
+
+def size_vectors(rlevel, group_sizes, data_lens, depth=0):
+    """all 'shape' trees of a level: {"g": {name: [shape,...]}, "d": {name: len}}; sizes may differ per depth"""
     gopts = []
     for g in rlevel.groups:
-        inner = list(size_vectors(g.level, group_sizes, data_lens))
+        inner = list(size_vectors(g.level, group_sizes, data_lens, depth + 1))
         opts = []
-        for n in group_sizes:
+        for n in _at(group_sizes, depth):
             for combo in itertools.product(inner, repeat=n):
                 opts.append(list(combo))
         gopts.append(opts)
-    dopts = [list(data_lens) for _ in rlevel.data]
+    dopts = [list(_at(data_lens, depth)) for _ in rlevel.data]
     for gc in itertools.product(*gopts):
         for dc in itertools.product(*dopts):
             yield {"g": {g.name: gc[i] for i, g in enumerate(rlevel.groups)},
                    "d": {d.name: dc[i] for i, d in enumerate(rlevel.data)}}
 
 
-def count_size_vectors(rlevel, group_sizes, data_lens):
+def count_size_vectors(rlevel, group_sizes, data_lens, depth=0):
     total = 1
     for g in rlevel.groups:
-        inner = count_size_vectors(g.level, group_sizes, data_lens)
-        total *= sum(inner ** n for n in group_sizes)
-    total *= len(data_lens) ** len(rlevel.data)
+        inner = count_size_vectors(g.level, group_sizes, data_lens, depth + 1)
+        total *= sum(inner ** n for n in _at(group_sizes, depth))
+    total *= len(_at(data_lens, depth)) ** len(rlevel.data)
     return total
 
 
@@ -106,7 +113,7 @@ def fill_boundary(rlevel, shape, j, bg):
 
     def nv(node):
         if node.kind == "scalar":
-            b = kinds.boundary_bits(node.prim)
+            b = kinds.node_bits(node)
             return b[j % len(b)]
         if node.kind == "array":
             return bg.take(node.size)
